@@ -1,6 +1,7 @@
 import OapiVerif.Model.Names
 import OapiVerif.Gen.C01
 import OapiVerif.Proofs.Comment
+import OapiVerif.Proofs.RefPath
 /-!
 C01 — Generated code compiles, for every supported spec and configuration.
 
@@ -150,3 +151,38 @@ example : comment [97, 13, 10, 42, 47, 10, 102, 117, 110, 99, 10] [84] =
     [47, 47, 32, 84, 32, 97, 10, 47, 47, 32, 42, 47, 10, 47, 47, 32, 102, 117, 110, 99] := by decide
 
 end OapiVerif.Comment
+
+namespace OapiVerif.RefPath
+
+/-- Last clause of C01: the type of a reference into another document depends on that document's name, the import
+mapping and the naming function only — not on what the referring document itself declares. -/
+theorem C01_remote_reference_ignores_local_components (env env' : Env) (c : Nat) (t : Str) (hc : c ≠ hash)
+    (himp : env.imports = env'.imports) (htn : env.typeName = env'.typeName) :
+    refPathToGoType env (c :: t) = refPathToGoType env' (c :: t) :=
+  remote_ignores_local env env' (c :: t) c t rfl hc himp htn
+
+/-- A reference into another document that is rendered is a type of the package mapped to that document. -/
+theorem C01_remote_reference_is_package_qualified (env : Env) (c : Nat) (t out : Str) (hc : c ≠ hash)
+    (h : refPathToGoType env (c :: t) = .ok out) :
+    ∃ remote pkg u, (remote, pkg) ∈ env.imports ∧ out = pkg ++ [dot] ++ u :=
+  remote_is_qualified env (c :: t) c t out rfl hc h
+
+def s (x : String) : Str := x.toList.map Char.toNat
+
+/-- the environment of the witness: this document has a component Pet renamed to LocalPet; common.json is mapped -/
+def exEnv : Env :=
+  { renamed := fun sec key => if sec = s "schemas" ∧ key = s "Pet" then some (s "LocalPet") else none,
+    imports := [(s "common.json", s "externalRef0")],
+    typeName := id }
+
+/-- Pre-repair witness (replayed on the code: multi-document feature `same-name`, repaired in /repo): the reference was
+renamed after the local component and pointed at a type the other package does not declare. -/
+theorem C01_remote_reference_old_witness :
+    refPathToGoTypeOld exEnv (s "common.json#/components/schemas/Pet") = .ok (s "externalRef0.LocalPet") ∧
+    refPathToGoType exEnv (s "common.json#/components/schemas/Pet") = .ok (s "externalRef0.Pet") ∧
+    refPathToGoType exEnv (s "#/components/schemas/Pet") = .ok (s "LocalPet") ∧
+    refPathToGoType exEnv (s "other.json#/components/schemas/Pet") = .error .unmapped ∧
+    refPathToGoType exEnv (s "#/components/schemas") = .error .depth ∧
+    refPathToGoType exEnv (s "common.json#/Pet") = .ok (s "externalRef0.Pet") := by decide
+
+end OapiVerif.RefPath
